@@ -59,7 +59,7 @@ def _closed(draw):
             "order": draw(st.sampled_from([2, 4, 6])), "nref": draw(st.sampled_from([1, 2, 5])),
             "x": draw(st.sampled_from(XT)), "nt": draw(st.integers(5, 60)),
             # propagate inside `with eigenbasis_of(H)` (state created outside, result read outside)
-            "ctx": draw(st.booleans()),
+            "ctx": draw(st.booleans()), "ham_units": draw(st.sampled_from([None, None, "1/cm", "eV", "THz"])),
             # start of the time axis in units of the step
             "k0": draw(st.sampled_from([0, 0, 0, 3, -2, 10]))}
 
@@ -167,10 +167,18 @@ def _check_closed(case, ctx, rho0, coh):
     ctx.label("in-context" if inctx else "no-context", "t0!=0" if k0 else "t0=0")
 
     def run():
-        with qr.energy_units("int"):
-            ham = qr.Hamiltonian(data=H.copy())
-        if rwa is not None:
-            ham.set_rwa([0, rwa])
+        hu = case.get("ham_units")
+        if hu:
+            # the usual place where Hamiltonians are defined: inside a units context, RWA set there as well
+            with qr.energy_units(hu):
+                ham = qr.Hamiltonian(data=numpy.array(orc.convert(H, "int", hu)))
+                if rwa is not None:
+                    ham.set_rwa([0, rwa])
+        else:
+            with qr.energy_units("int"):
+                ham = qr.Hamiltonian(data=H.copy())
+            if rwa is not None:
+                ham.set_rwa([0, rwa])
         prop = ReducedDensityMatrixPropagator(ta, ham)
         rhoi = ReducedDensityMatrix(data=rho0.copy())
         if inctx:
@@ -215,10 +223,17 @@ def _check_closed(case, ctx, rho0, coh):
     psi0 = A / numpy.linalg.norm(A)
 
     def run_sv():
-        with qr.energy_units("int"):
-            ham2 = qr.Hamiltonian(data=H.copy())
-        if rwa is not None:
-            ham2.set_rwa([0, rwa])
+        hu = case.get("ham_units")
+        if hu:
+            with qr.energy_units(hu):
+                ham2 = qr.Hamiltonian(data=numpy.array(orc.convert(H, "int", hu)))
+                if rwa is not None:
+                    ham2.set_rwa([0, rwa])
+        else:
+            with qr.energy_units("int"):
+                ham2 = qr.Hamiltonian(data=H.copy())
+            if rwa is not None:
+                ham2.set_rwa([0, rwa])
         sp = StateVectorPropagator(ta, ham2)
         sp.setDtRefinement(nref)
         pe = sp.propagate(qr.StateVector(data=psi0.copy()), L=order)
